@@ -161,6 +161,15 @@ class PropertyRun:
                     continue
                 attempts += 1
                 self.handle_open_obligation(case, res, v)
+        # paths outside the engine (a construct it does not model): the implicit obligation "every path of the function lies in the
+        # verified subset" is open.  If the contract names a directed input family, it is run on the real code; only an input
+        # that FAILS there turns the open obligation into a reported violation, otherwise the path stays undecided.
+        for case, res, vs in self.results:
+            if not res.unsupported or not getattr(case, 'directed', None):
+                continue
+            if sum(1 for r in self.violations if r.get('kind', '').endswith('replay')) >= 3 or time.time() - t_open > 240:
+                break
+            self.handle_engine_gap(case, res)
         if self.open_not_examined:
             msg = '%d further undischarged obligations not examined (effort cap)' % self.open_not_examined
             self.notes.append(msg)
@@ -283,6 +292,30 @@ class PropertyRun:
             self.undecided.append({'function': case.qualname, 'case': case.case, 'obligation': v.ob.name,
                                    'reason': 'solver %s (%s)' % (v.status, v.detail or 'no detail'),
                                    'counter_model_tried': model is not None})
+
+    def handle_engine_gap(self, case, res):
+        rec = {'property': self.pid, 'obligation': '%s:%s.every path lies in the verified subset' % (case.qualname, case.case),
+               'path': res.unsupported[0].split(':')[0], 'solver_status': 'not-generated', 'backend': 'none',
+               'solver_detail': 'path outside the engine: ' + '; '.join(res.unsupported)[:400], 'function': case.qualname, 'case': case.case}
+        fam = case.directed() if callable(case.directed) else case.directed
+        for oname, args in fam:
+            try:
+                rec2 = dict(rec)
+                rec2['counter_model_from'] = 'directed input family of the contract (no verification condition could be generated for this path)'
+                rec2['oracle'] = oname
+                rec2['oracle_modules'] = getattr(self.prop, 'ORACLE_MODULES', [])
+                rec2['args'] = args
+                path = self.write_replay(rec2)
+                out = self.run_replay(path)
+                rec2['replay'] = out
+                if out.get('confirmed'):
+                    self.write_replay(rec2, path)
+                    rec2['kind'] = 'engine-gap+replay'
+                    self.add_violation(rec2)
+                    return
+                os.remove(path)
+            except Exception as e:
+                rec['replay_error'] = repr(e)
 
     def write_replay(self, rec, path=None):
         os.makedirs(self.replay_dir, exist_ok=True)
